@@ -415,6 +415,14 @@ func runLoopOrder(c *core.Ctx) {
 		if good {
 			fr := an.NoSubject()
 			fr.Assume = map[ssa.Value]bool{okVal: true}
+			// the drain select stands inside the drain loop: the loop's own condition held when this
+			// iteration began (`for drained := false; !drained; {…}`)
+			fr.AssumeEntry = map[ssa.Value]bool{}
+			for _, g := range an.Guards(drain, inner.Block()) {
+				if _, isPhi := g.V.(*ssa.Phi); isPhi {
+					fr.AssumeEntry[g.V] = g.True
+				}
+			}
 			for _, p := range back {
 				feasible := true
 				for _, cd := range p.Conds() {
